@@ -3080,11 +3080,13 @@ scan_escape_sequence(int c) {
     c = get();
     if (isxdigit(c)) {
       // A hexadecimal escape sequence takes all the digits that follow.
-      int val = hex_val(c);
+      // Accumulate unsigned: more than eight digits must not shift into (or
+      // out of) the sign bit.
+      unsigned int val = (unsigned int)hex_val(c);
       while (isxdigit(peek())) {
-        val = (val << 4) | hex_val(get());
+        val = (val << 4) | (unsigned int)hex_val(get());
       }
-      return val;
+      return (int)val;
     }
     break;
 
